@@ -54,19 +54,33 @@ static void* signaller_fiber(void* a) {
       // determined by the ledger; only mutex ownership on return and bounded progress are judged
       const int all_returned = returned_total == target_waits;
       const long in_wait = entered_total - returned_total;
+      const long ret_now = returned_total, ent_now = entered_total;
       leave_section();
       fiber_mutex_unlock(&mu);
       if (all_returned) break;
-      if (in_wait > 0) {
-        if (vp_rand(&s->rng) % 4 == 0) {
-          vp_add(c_broadcasts, 1);
-          FB_BLOCKING(s, "C05 fiber_cond_broadcast", fiber_cond_broadcast(&cv));
-        } else {
-          vp_add(c_signals, 1);
-          FB_BLOCKING(s, "C05 fiber_cond_signal", fiber_cond_signal(&cv));
+      // bounded progress instead of "eventually": with the same fibers inside fiber_cond_wait before and after, two
+      // million consecutive signal/broadcast calls that release nobody mean the signals are being lost
+      if (ret_now == s->a && ent_now == s->b && in_wait > 0) {
+        if (++s->c > 2000000) {
+          vp_violation("C05", "cond:signals-lost", "trial %d: %ld fiber(s) have been inside fiber_cond_wait throughout %ld consecutive signal/broadcast calls issued by one signaller, and none was released",
+                       trial, in_wait, s->c);
+          vp_finish();
         }
+      } else {
+        s->a = ret_now;
+        s->b = ent_now;
+        s->c = 0;
       }
-      fiber_yield();
+      // signal whether or not somebody is registered: signals that find nobody must be harmless for a fiber that is
+      // registering at that very moment
+      if (vp_rand(&s->rng) % 8 == 0) {
+        vp_add(in_wait > 0 ? c_broadcasts : c_signal_nowaiter, 1);
+        FB_BLOCKING(s, "C05 fiber_cond_broadcast", fiber_cond_broadcast(&cv));
+      } else {
+        vp_add(in_wait > 0 ? c_signals : c_signal_nowaiter, 1);
+        FB_BLOCKING(s, "C05 fiber_cond_signal", fiber_cond_signal(&cv));
+      }
+      if ((vp_rand(&s->rng) & 3) == 0) fiber_yield();
       continue;
     }
     const int finished = entered_total == target_waits && waiting == 0;
@@ -110,10 +124,18 @@ void* sy_cond_root(void* x) {
   c_trials = vp_counter("cond_trials");
   uint64_t rng = vp_mix(vp_cfg.seed, 505);
   for (trial = 0; trial < trials; ++trial) {
-    const int W = 1 + (int)(vp_rand(&rng) % (unsigned)maxw);
-    const int S = 1 + (int)(vp_rand(&rng) % 4);
+    int W = 1 + (int)(vp_rand(&rng) % (unsigned)maxw);
+    int S = 1 + (int)(vp_rand(&rng) % 4);
     waits_per_fiber = 1 + (int)(vp_rand(&rng) % (unsigned)vp_param("waits", 12));
     signal_outside_mutex = (int)(vp_rand(&rng) % 3 == 0);
+    if (trial % 4 == 3) {
+      // hammer: few waiters re-waiting thousands of times against tight unlocked signallers (windows without hook points)
+      signal_outside_mutex = 1;
+      W = 1 + (int)(vp_rand(&rng) % 3);
+      S = 2 + (int)(vp_rand(&rng) % 3);
+      waits_per_fiber = (int)vp_param("hammer_waits", 3000);
+      vp_count("cond_hammer_trials", 1);
+    }
     waiting = credits = entered_total = returned_total = 0;
     target_waits = (long)W * waits_per_fiber;
     atomic_store(&occ, 0);
